@@ -11,7 +11,7 @@ import os, re, json, random
 import vlib, proj
 from vlib import Verdict, run_tlc, vh, read_ndjson, write_ndjson, sample
 
-ORDER = ["G1", "C1", "GR", "C2", "GA", "GC", "CC", "GT", "CT", "GN", "Q", "QR", "C1b", "C0", "CN1", "CN2", "CA", "GCA", "CCA", "GCP"]
+ORDER = ["G1", "C1", "GR", "C2", "GA", "GC", "CC", "GT", "CT", "GN", "Q", "QR", "C1b", "C0", "CN1", "CN2", "CA", "GCA", "CCA", "GCP", "GI1", "GI2", "C3"]
 SUGAR_CONSTRAINTS = {"CN1", "CN2"}
 SUGAR = {"GT", "GN"}
 
@@ -58,13 +58,15 @@ def render(case, k):
             stmts.append((it, "zz2 <== Sub2()(in1, s1);", []))
         elif it == "GA":
             continue
-        elif it in ("CA", "GCA", "CCA", "GCP"):
+        elif it == "C3":
+            stmts.append((it, "s3 * 5 === in2;", []))
+        elif it in ("CA", "GCA", "CCA", "GCP", "GI1", "GI2"):
             continue
     custom = case["kind"] == "custom"
     head = "pragma circom 2.0.0;\n" + ("pragma custom_templates;\n" if custom else "")
     head += "template Sub() {\n  signal input x;\n  signal output o;\n  o <== x;\n}\n"
     head += "template Sub2() {\n  signal input p;\n  signal input q;\n  signal output o;\n  o <== p * q;\n}\n"
-    head += "template %sT(n) {\n  signal input in1;\n  signal input in2;\n  signal output s1;\n  signal output s2;\n  signal sa[2];\n" % ("custom " if custom else "")
+    head += "template %sT(n) {\n  signal input in1;\n  signal input in2;\n  signal output s1;\n  signal output s2;\n  signal s3;\n  signal sa[2];\n" % ("custom " if custom else "")
     head += "  signal t1;\n  signal t2;\n  signal u;\n  signal w;\n  signal z;\n  signal zz1;\n  signal zz2;\n  component c = Sub();\n  component cs[2];\n  component c2 = Sub();\n"
     text = head
     nest = case["nest"]
@@ -121,6 +123,18 @@ def render(case, k):
             spans["CCA"] = (start, start + len(t))
             text += ind + "  " + t + "\n"
         text += ind + "}\n"
+    if "GI1" in case["items"] or "GI2" in case["items"]:
+        # the same signal assigned in both arms of a branch on a parameter: two statements, two findings
+        text += ind + "if (n == 4) {\n"
+        for it, r1 in (("GI1", "in1 * in2" if case["rhs"] == "q" else "in1 >> 1"), ("GI2", "in2 * in2" if case["rhs"] == "q" else "in2 >> 2")):
+            if it == "GI2":
+                text += ind + "} else {\n"
+            if it in case["items"]:
+                t = "s3 <-- %s;" % r1
+                start = len((text + ind + "  ").encode())
+                spans[it] = (start, start + len(t) - 1)
+                text += ind + "  " + t + "\n"
+        text += ind + "}\n"
     if "GCP" in case["items"]:
         # a branch whose only statement assigns a component port from a parameter: no signal of the template occurs in the block
         t = "c2.x <-- %s;" % ("n * n" if case["rhs"] == "q" else "n >> 1")
@@ -155,7 +169,7 @@ def run(tier):
     gen = run_tlc("SignalAssign", c, "c08", workers=4, timeout=1800)
     cases = list(read_ndjson(gen.cases_path))
     total = len(cases)
-    cap = 12000 if tier == "quick" else 120000
+    cap = 24000 if tier == "quick" else 200000
     if len(cases) > cap:
         cases = rnd.sample(cases, cap)
     rendered = [render(cs, i + vlib.seed()) for i, cs in enumerate(cases)]
@@ -191,7 +205,7 @@ def run(tier):
             l = r["primary"][0]
             m = re.search(r"`([^`]*)`", l["msg"])
             sig = norm_signal(m.group(1)) if m else "?"
-            owner = [it for it, (s, e) in spans.items() if s <= l["s"] and l["e"] <= e + 1 and it in ("G1", "GR", "GA", "GC", "GT", "GN", "GCA", "GCP")]
+            owner = [it for it, (s, e) in spans.items() if s <= l["s"] and l["e"] <= e + 1 and it in ("G1", "GR", "GA", "GC", "GT", "GN", "GCA", "GCP", "GI1", "GI2")]
             if len(owner) != 1:
                 bad = ("assign:finding not anchored at a signal assignment statement", {"label": l})
                 break
